@@ -101,6 +101,12 @@ def get_scoped_setup_inputs(
                     continue
                 # if it is effect free, we recurse on it's operands
                 vals_to_inspect.extend(val.owner.operands)
+                # and on all values that ops nested inside of it use from outside of it
+                for nested_op in val.owner.walk():
+                    if nested_op is not val.owner:
+                        vals_to_inspect.extend(
+                            operand for operand in nested_op.operands if not _is_defined_within(operand, val.owner)
+                        )
                 # and note the operation down as one that computes our input variables
                 inputs.append(val.owner)
             else:
@@ -114,6 +120,18 @@ def get_scoped_setup_inputs(
     # make sure the order is the same as in the parent module, so we don't break def-use chains
     inputs_tuple = tuple(sorted(inputs, key=lambda op: positions[op]))
     return ScopedSetupWithInputs(setup_op, input_vars, inputs_tuple)
+
+
+def _is_defined_within(val: SSAValue, op: Operation) -> bool:
+    """
+    Check if val is defined by op, or by an operation or block nested inside of op.
+    """
+    parent = val.owner if isinstance(val.owner, Operation) else val.owner.parent_op()
+    while parent is not None:
+        if parent is op:
+            return True
+        parent = parent.parent_op()
+    return False
 
 
 @dataclass
